@@ -383,6 +383,15 @@ class Check:
             f.write(text)
         rc, out = sh(f"ulimit -s unlimited 2>/dev/null; exec coqc -Q {COQ}/theories Arim {p}",
                      cwd=self.work, timeout=timeout)
+        for ext in (".vo", ".vok", ".vos", ".glob"):
+            try:
+                os.remove(p[:-2] + ext)
+            except OSError:
+                pass
+        try:
+            os.remove(os.path.join(os.path.dirname(p), "." + os.path.basename(p)[:-2] + ".aux"))
+        except OSError:
+            pass
         if rc != 0:
             raise RuntimeError(f"coqc failed on generated {p}:\n{out[-3000:]}")
         return out
